@@ -61,6 +61,9 @@ def check_traversal(report):
                 e = e.args[0]
             if isinstance(e, (ast.List, ast.Tuple)) and len(e.elts) == 1 and isinstance(e.elts[0], ast.Starred):
                 return _iter_src(e.elts[0].value)
+            # [x for x in X if c] iterates (a selection of) X
+            if isinstance(e, (ast.ListComp, ast.GeneratorExp)) and len(e.generators) == 1 and ast.unparse(e.elt) == ast.unparse(e.generators[0].target):
+                return _iter_src(e.generators[0].iter)
             return ast.unparse(e)
         # own address
         own = ("address_allowlist.add(self.ident)" in src or "address_allowlist.add(self.meta.address)" in src)
@@ -166,15 +169,27 @@ def check_selection_and_internal(report):
     m = pm()
     sv = m.func("gapic.schema.wrappers.Service.add_to_address_allowlist")
     from .common_rules import stmt_guards
+    from ..pymodel import nfunc as _nfunc
     walks = [(guards, st) for guards, st in stmt_guards(sv.node) if "add_to_address_allowlist(" in ast.unparse(st)
              and any(g[0] == "for" and g[2] == "self.methods.values()" for g in guards)]
+    if len(walks) != 1:
+        # select-then-traverse (`chosen = [m for m in self.methods.values() if ...]; for m in chosen: ...`): read on the normal form, where the
+        # selection is substituted into the loop and stmt_guards expands it into its loop and condition
+        nsv = _nfunc(m, sv, keep={"add_to_address_allowlist"})
+        walks = [(guards, st) for guards, st in stmt_guards(nsv) if "add_to_address_allowlist(" in ast.unparse(st)
+                 and any(g[0] == "for" and g[2] == "self.methods.values()" for g in guards)]
     r3.instance("Service method selection")
     ok = len(walks) == 1
     if ok:
         guards, st = walks[0]
         loop = [g for g in guards if g[0] == "for" and g[2] == "self.methods.values()"][0]
         conds = [g for g in guards if g[0] != "for"]
-        ok = conds == [(f"{loop[1]}.ident.proto in method_allowlist", True)] and ast.unparse(st).startswith(f"{loop[1]}.add_to_address_allowlist(")
+        recv = ast.unparse(st).split(".add_to_address_allowlist(")[0]
+        # the receiver is the loop element itself, or the target of a `for <recv> in [<elem> for <elem> in ... if ...]` over it
+        aliases = {loop[1]} | {ast.unparse(n.target) for tree_ in (sv.node, locals().get("nsv")) if tree_ is not None for n in ast.walk(tree_)
+                              if isinstance(n, ast.For) and isinstance(n.iter, (ast.ListComp, ast.GeneratorExp)) and len(n.iter.generators) == 1
+                              and ast.unparse(n.iter.elt) == loop[1] and ast.unparse(n.iter.generators[0].target) == loop[1]}
+        ok = conds == [(f"{loop[1]}.ident.proto in method_allowlist", True)] and recv in aliases
     r3.check(ok, sv.module.path, sv.node.lineno, "if method.ident.proto in method_allowlist", "exactly the listed RPCs are walked")
     r4 = report.rule("C16.4", "internal mode: is_internal flipped for unlisted methods only; `_` / `Base` prefixes exactly under is_internal", floor=4)
     from ..pymodel import nmatch, nreturn, decision_leaves, string_properties
